@@ -168,6 +168,13 @@ def impl(case):
     nops = len(opsm)
     out['ops'] = opsm
     out['sym'] = sym.reshape(len(case['vecs']), nops, 3).tolist()
+    # explicit operations override a group name given along with them (the documented meaning of passing both)
+    ops_arr = np.array(opsm, dtype=float).transpose(1, 2, 0)
+    other = 'm-3m' if case['group'] != 'm-3m' else '2/m'
+    only = o2.symmetrize(sym_ops=ops_arr).vectors
+    both = o2.symmetrize(sym_group=other, sym_ops=ops_arr).vectors
+    out['sym_ops_ok'] = bool(only.shape == sym.shape and np.array_equal(only, sym))
+    out['sym_both_ok'] = bool(both.shape == only.shape and np.array_equal(both, only))
     tm = np.array(case['tmat'], dtype=float)
     out['tout'] = o2.transform(tm).vectors.reshape(-1, 3).tolist()
     # spherical representation and autocorrelation of the bond vectors
@@ -250,6 +257,10 @@ def oracle(case, out):
         if wantg != gotg or np.abs(np.array(grp) - np.rint(grp)).max() > 1e-9:
             fs.append(('orient/symmetrize', f'symmetrize({case["group"]}) of {v} is not the set of its images under the group'))
             break
+    if out.get('sym_ops_ok') is False:
+        fs.append(('orient/symmetrize', f'symmetrize(sym_ops=operations of {case["group"]}) differs from symmetrize(sym_group={case["group"]!r})'))
+    if out.get('sym_both_ok') is False:
+        fs.append(('orient/symmetrize', f'symmetrize(sym_group=<another group>, sym_ops=operations of {case["group"]}) does not use the operations given (they override the name)'))
     tw = (np.array(case['tmat']) @ np.array(case['vecs']).T).T.tolist()
     if not np.allclose(out['tout'], tw, atol=1e-9):
         fs.append(('orient/transform', 'transform(matrix) is not the matrix applied to every vector'))
